@@ -90,6 +90,17 @@ def g(a=1, flag=False):
 BLANK_DOC_FUNC_SRC = 'def blank(gamma=3, delta=4):\n    """   """\n    return gamma\n'
 BLANK_DOC_CLASS_SRC = 'class Blank(object):\n    """"""\n    alpha: int = 1\n    beta: str = "b"\n'
 
+STRING_ANN_CLASS_SRC = '''
+class Lazy(object):
+    """
+    Summary line
+
+    :cvar alpha: the alpha
+    :cvar beta: the beta"""
+    alpha: "int" = 3
+    beta: "Optional[str]" = None
+'''
+
 CLASS_SRC = '''
 class ConfigClass(object):
     """
@@ -161,6 +172,7 @@ def first_diff(a, b):
 
 def ir_ops():
     from doctrans import emit
+    from doctrans.defaults_utils import remove_defaults_from_intermediate_repr
     from doctrans.source_transformer import to_code
 
     return OrderedDict([
@@ -183,6 +195,14 @@ def ir_ops():
         ("emit.function_from_ir", lambda o: to_code(emit.function(o, function_name=None, function_type=None))),
         ("emit.argparse_nowrap", lambda o: to_code(emit.argparse_function(o, word_wrap=False, wrap_description=True))),
         ("emit.numpydoc_nowrap", lambda o: emit.docstring(o, docstring_format="numpydoc", word_wrap=False)),
+        # the shared description handed over by keyword
+        ("emit.class_kw", lambda o: to_code(emit.class_(intermediate_repr=o, emit_default_doc=True))),
+        ("emit.function_kw", lambda o: to_code(emit.function(intermediate_repr=o, function_name="f", function_type="static"))),
+        ("emit.argparse_kw", lambda o: to_code(emit.argparse_function(intermediate_repr=o))),
+        ("emit.rest_kw", lambda o: emit.docstring(intermediate_repr=o)),
+        # the public helper that hands back a description without defaults
+        ("remove_defaults", lambda o: canon_ir(remove_defaults_from_intermediate_repr(o))),
+        ("remove_defaults_prop_off", lambda o: canon_ir(remove_defaults_from_intermediate_repr(o, emit_default_prop=False))),
     ])
 
 
@@ -241,6 +261,7 @@ def initial_objects(tier):
     out.append(("ast.method", "ast:function", lambda: ast.parse(METHOD_SRC).body[0].body[2]))
     out.append(("ast.class", "ast:class", lambda: ast.parse(CLASS_SRC).body[0]))
     out.append(("ast.class_with_method", "ast:class", lambda: ast.parse(METHOD_SRC).body[0]))
+    out.append(("ast.class_string_annotations", "ast:class", lambda: ast.parse(STRING_ANN_CLASS_SRC).body[0]))
     out.append(("ast.argparse", "ast:argparse", lambda: ast.parse(ARGPARSE_SRC).body[0]))
     return out
 
